@@ -392,6 +392,8 @@ func init() {
 		Rule: "build: random setter sequences on a Cookie (key/value/domain/path from attack words, separators ; = \" \\ SP CR LF , NUL and random bytes, or pure cookie-octets; all max-age/expiry/flag/SameSite combinations), " +
 			"serialised, judged by an RFC 6265 user-agent reference (attributes seen == attributes set), by ParseBytes (parse back == canon or accepted error), by net/http.ParseSetCookie (no extra attribute) and through ResponseHeader.SetCookie write+read, then compared with the Lean model; " +
 			"exh: every string over {a = ; \" \\ SP CR LF} up to length 4 (quick) / 6 (thorough) as value, key, domain and path of a response cookie and as value and key of a request cookie; " +
+			"seq: operation sequences (4..15 ops) on three REUSED Cookie objects, one taken from AcquireCookie (setters, Reset, Parse/ParseBytes of Set-Cookie strings with different expiries, CopyTo between the objects, " +
+			"ReleaseCookie+AcquireCookie, ResponseHeader.SetCookie / ResponseHeader.Cookie, serialisation through Cookie/String/AppendBytes(nil)/AppendBytes(prefix)/WriteTo) — every serialisation is judged by the same monitors, must equal the serialisation of a fresh copy of the same fields, and the whole trace is compared with the Lean object model; " +
 			"req: sequences of RequestHeader.SetCookie with the same byte classes, written, re-read by RequestHeader.Read and by net/http, cookies seen vs cookies stored; " +
 			"parse: Set-Cookie strings assembled from attribute words in random case with separators; trim/valid/date/reqparse: the unexported helpers against the model; " +
 			"non-trivial = a separator or non-octet byte in a text field, or >=2 attributes set, or >=2 request cookies; distinct = distinct input",
@@ -464,6 +466,148 @@ func init() {
 						}
 						if r[0] != impl {
 							return Verdict{VCorr, "cookie-build", fmt.Sprintf("impl  %s\nmodel %s", impl, r[0])}
+						}
+						return Ok()
+					}}
+			case "seq":
+				// operation sequence on a small pool of REUSED Cookie objects (one from AcquireCookie) and one ResponseHeader:
+				// triples (opcode, slot, argument).  Every serialisation must be a function of the object's current fields only.
+				if len(a)%3 != 0 {
+					return nil
+				}
+				slots := []*fasthttp.Cookie{{}, fasthttp.AcquireCookie(), {}}
+				defer func() { fasthttp.ReleaseCookie(slots[1]) }()
+				var rh fasthttp.ResponseHeader
+				var obs []string
+				var line [][]byte
+				var v *Verdict
+				nser, nmut := 0, 0
+				hist := ""
+				serialise := func(c *fasthttp.Cookie, mode int) []byte {
+					switch mode % 5 {
+					case 0:
+						return append([]byte(nil), c.Cookie()...)
+					case 1:
+						return []byte(c.String())
+					case 2:
+						return c.AppendBytes(nil)
+					case 3:
+						return c.AppendBytes([]byte("x=y; "))[5:]
+					default:
+						var bb bytes.Buffer
+						c.WriteTo(&bb)
+						return bb.Bytes()
+					}
+				}
+				check := func(c *fasthttp.Cookie, w []byte) {
+					if v != nil {
+						return
+					}
+					ctx := fmt.Sprintf("after ops [%s] cookie %s", hist, c06Render(c))
+					if v = c06MonitorSetCookie(c, w, ctx); v != nil {
+						return
+					}
+					// the same field values in an object without history serialise to the same bytes
+					var fresh fasthttp.Cookie
+					fresh.CopyTo(c)
+					if w2 := fresh.Cookie(); !bytes.Equal(w, w2) {
+						v = &Verdict{VSpec, "serialisation-depends-on-history", fmt.Sprintf("%s: serialised as %q, a fresh copy of the same fields as %q", ctx, w, w2)}
+					}
+				}
+				for i := 0; i+2 < len(a) && v == nil; i += 3 {
+					if len(a[i]) != 1 || len(a[i+1]) != 1 {
+						return nil
+					}
+					op, sl, arg := a[i][0], int(a[i+1][0])%3, a[i+2]
+					c := slots[sl]
+					hist += fmt.Sprintf("%c%d(%q) ", op, sl, arg)
+					larg := arg
+					lop := op
+					switch op {
+					case 'R':
+						var err error
+						if len(arg)%2 == 0 {
+							err = c.ParseBytes(append([]byte(nil), arg...))
+						} else {
+							err = c.Parse(string(arg))
+						}
+						nmut++
+						if err == nil {
+							obs = append(obs, "R:ok")
+						} else {
+							obs = append(obs, "R:"+c06ErrClass(err))
+						}
+					case 'C':
+						if len(arg) != 1 {
+							return nil
+						}
+						c.CopyTo(slots[int(arg[0])%3])
+						nmut++
+					case 'W':
+						w := serialise(c, len(hist))
+						nser++
+						obs = append(obs, "W:"+H(w))
+						check(c, w)
+						larg = nil
+					case 'h':
+						if len(serialise(c, 0)) > 0 {
+							rh.SetCookie(c)
+						}
+						nser++
+						larg = nil
+					case 'g':
+						stored := rh.PeekCookie(string(c.Key()))
+						if stored == nil {
+							if rh.Cookie(c) {
+								v = &Verdict{VSpec, "response-cookie-lookup", fmt.Sprintf("after ops [%s]: ResponseHeader.Cookie found a cookie PeekCookie does not", hist)}
+							}
+							obs = append(obs, "g:none")
+						} else {
+							var tmp fasthttp.Cookie
+							err := tmp.ParseBytes(append([]byte(nil), stored...))
+							if !rh.Cookie(c) {
+								v = &Verdict{VSpec, "response-cookie-lookup", fmt.Sprintf("after ops [%s]: ResponseHeader.Cookie misses the stored cookie %q", hist, stored)}
+							}
+							nmut++
+							if err == nil {
+								obs = append(obs, "g:ok")
+							} else {
+								obs = append(obs, "g:"+c06ErrClass(err))
+							}
+						}
+						larg = nil
+					case 'Z':
+						c.Reset()
+						larg = nil
+					case 'A':
+						fasthttp.ReleaseCookie(c)
+						slots[sl] = fasthttp.AcquireCookie()
+						larg = nil
+					default:
+						ln, ok := c06ApplyOps(c, [][]byte{{op}, arg})
+						if !ok {
+							return nil
+						}
+						lop, larg = ln[0][0], ln[1]
+					}
+					line = append(line, []byte{lop}, []byte{byte(sl)}, larg)
+				}
+				// final observation: every object serialises according to its fields
+				var fin []string
+				for _, c := range slots {
+					fin = append(fin, c06Render(c))
+					if v == nil {
+						check(c, serialise(c, 0))
+					}
+				}
+				impl := strings.Join(obs, ";") + ";F:" + strings.Join(fin, "|")
+				return &Case{Lines: []string{Line("ckseq", line...)}, Impl: impl, Nontrivial: nser >= 1 && nmut >= 1, Tags: []string{"seq"},
+					Judge: func(r []string) Verdict {
+						if v != nil {
+							return *v
+						}
+						if r[0] != impl {
+							return Verdict{VCorr, "cookie-seq", fmt.Sprintf("ops [%s]\nimpl  %s\nmodel %s", hist, impl, r[0])}
 						}
 						return Ok()
 					}}
@@ -713,6 +857,68 @@ func init() {
 					}
 				}
 				emit("build", args...)
+			}
+			// operation sequences on reused / pooled Cookie objects
+			seqDates := []string{"Tue, 10 Nov 2099 23:00:00 GMT", "Wed, 01 Jan 2031 10:20:30 GMT", "Sat, 29 Feb 2020 00:00:01 GMT", "Fri, 31 Dec 9999 23:59:59 GMT", "Mon, 02 Jan 0001 00:00:00 GMT"}
+			seqAttr := []string{"path=/p", "Domain=x.org", "HttpOnly", "secure", "SameSite=Lax", "samesite=none", "Partitioned", "max-age=0", "Max-Age=3600", "max-age=x", "expires=junk", "domain=a\"b", "path=/\x01"}
+			mkSetCookie := func() []byte {
+				var sb []byte
+				sb = append(sb, [][]byte{B("sid"), B("a"), B("prefs"), B("k")}[r.Intn(4)]...)
+				sb = append(sb, '=')
+				sb = append(sb, [][]byte{B("abc"), B("1"), B("x y"), nil}[r.Intn(4)]...)
+				for j := r.Intn(4); j > 0; j-- {
+					sb = append(sb, "; "...)
+					if r.Chance(55) {
+						sb = append(sb, "expires="...)
+						sb = append(sb, seqDates[r.Intn(len(seqDates))]...)
+					} else {
+						sb = append(sb, seqAttr[r.Intn(len(seqAttr))]...)
+					}
+				}
+				return sb
+			}
+			seqOps := []byte("WWWWRRRRCCEEEMKVDPHSXTZAhhgg")
+			for i := 0; i < n; i++ {
+				var args [][]byte
+				oct := r.Chance(50)
+				for m := 3 + r.Intn(12); m > 0; m-- {
+					op := seqOps[r.Intn(len(seqOps))]
+					sl := []byte{byte(r.Intn(3))}
+					if r.Chance(40) {
+						sl[0] = 0
+					}
+					var arg []byte
+					switch op {
+					case 'R':
+						arg = mkSetCookie()
+						if r.Chance(10) {
+							arg = mk(r)
+						}
+					case 'C':
+						arg = []byte{byte(r.Intn(3))}
+					case 'E':
+						if r.Chance(15) {
+							arg = nil
+						} else {
+							arg = secs()
+						}
+					case 'M':
+						arg = [][]byte{B("0"), B("0"), B("60"), B("-1")}[r.Intn(4)]
+					case 'K', 'V', 'D', 'P':
+						if oct {
+							arg = mkOct(r, op == 'K')
+						} else {
+							arg = mk(r)
+						}
+					case 'H', 'S', 'T':
+						arg = N(r.Intn(2))
+					case 'X':
+						arg = N(r.Intn(5))
+					}
+					args = append(args, []byte{op}, sl, arg)
+				}
+				args = append(args, []byte{'W'}, []byte{byte(r.Intn(3))}, nil)
+				emit("seq", args...)
 			}
 			// exhaustive small alphabet
 			al := []byte("a=;\"\\ \r\n")
